@@ -283,3 +283,55 @@ CHECKS = [
 from vgv import worldedit  # noqa: E402
 
 CHECKS.append(worldedit.make_check('C08'))
+
+
+# ------------------------------------------------------------------ every cell of a very wide / very tall world
+
+SWEEP_LENGTHS = {'quick': [1030, 1100], 'thorough': [1030, 1100, 2050, 2100, 4100]}
+
+
+def enum_sweep(tier, shard, nshards):
+    i = 0
+    for L in SWEEP_LENGTHS[tier]:
+        for tall in (False, True):
+            for hd in HEADINGS:
+                i += 1
+                if i % nshards == shard:
+                    yield {'L': L, 'tall': tall, 'heading': hd}
+
+
+def oracle_sweep(case, ctx):
+    """one world of 2 x L (or L x 2) cells with a sparse wall pattern; the agent is put on every free cell in turn (in place, as its
+    owner may) and moved in place: displaced by exactly one cell in the commanded direction iff the target is inside and free.  Anything
+    remembered per coordinate must be remembered under the right coordinate, however large."""
+    from gym_gridverse.geometry import Position
+    L, hd = case['L'], case['heading']
+    h, w = (L, 2) if case['tall'] else (2, L)
+    wall = lambda y, x: (x * 7 + y * 3) % 11 == 0  # noqa: E731
+    rows = [['W' if wall(y, x) else 'F' for x in range(w)] for y in range(h)]
+    s = objs.build_state({'grid': rows, 'agent': [0, 0, hd, '_']})
+    move = REG['move_agent']
+    s.agent.orientation = objs.ori(hd)
+    bad = 0
+    for a in ('MOVE_FORWARD', 'MOVE_LEFT'):
+        A = objs.action(a)
+        dy, dx = M.FWD[M.turn(hd, M.MOVE_TURNS[a])]
+        for y in range(h):
+            for x in range(w):
+                if rows[y][x] == 'W':
+                    continue
+                s.agent.position = Position(y, x)
+                move(s, A)
+                ty, tx = y + dy, x + dx
+                exp = (ty, tx) if 0 <= ty < h and 0 <= tx < w and rows[ty][tx] != 'W' else (y, x)
+                got = (s.agent.position.y, s.agent.position.x)
+                if got != exp:
+                    bad += 1
+                    ctx.fail(f'{h}x{w} world: {a} from {(y, x)} heading {hd} ends at {got}, expected {exp} (target cell {"outside" if not (0 <= ty < h and 0 <= tx < w) else rows[ty][tx]})',
+                             {'kind': 'kinematics', 'aspect': 'coordinate_sweep'})
+    ctx.ev.case(case, nt=True, classes=[f'length:{L}'])
+
+
+CHECKS.append(Check('coordinate_sweep', oracle_sweep, enumerate=enum_sweep, shards={'quick': 16, 'thorough': 16}, exhaustive=True,
+                    rule='worlds of 2 x L and L x 2 cells (L = 1030, 1100; thorough also 2050, 2100, 4100) with a sparse wall pattern: the agent on every free cell x 4 headings x forward/left move, in place',
+                    required=['length:1030', 'length:1100']))
